@@ -21,7 +21,7 @@ RULE = ('pairs of random circuits with equal shapes (1..4 outputs, 1..5 inputs):
 ANCHOR_FILES = ['cirbo/sat/miter.py', 'cirbo/synthesis/generation/generation.py', 'cirbo/core/circuit/circuit.py']
 ASSUMPTIONS = ['vt.refsem; the pysat stand-in (z3, self-checked) for the satisfiability verdict']
 REQUIRED = {'mon:build_miter.checked': 150, 'pair:equivalent': 40, 'pair:different': 40, 'single_output': 30,
-            'shape_mismatch_rejected': 10, 'sat_checked': 50}
+            'shape_mismatch_rejected': 10, 'sat_checked': 50, 'interference_before_miter': 10}
 
 CUR = {'ctx': None, 'case': None}
 
@@ -29,7 +29,10 @@ CUR = {'ctx': None, 'case': None}
 def shards(tier, seed):
     per = 200 if tier == 'quick' else 12000
     budget = 45 if tier == 'quick' else 540
-    return [{'kind': 'random', 'count': per, 'budget_s': budget} for _ in range(16)]
+    _out = [{'kind': 'random', 'count': per, 'budget_s': budget} for _ in range(16)]
+    if tier == 'thorough':
+        _out.append({'kind': 'suite', 'select': ['tests/cirbo/sat', 'tests/cirbo/minimization'], 'budget_s': 900})
+    return _out
 
 
 def _arg(args, kwargs, i, name):
@@ -196,6 +199,23 @@ def check_case(case, ctx):
     kw = {}
     if case.get('names'):
         kw = {'left_name': case['names'][0], 'right_name': case['names'][1]}
+    if case.get('interfere'):
+        # a caller that builds its own comparator from the library's pairwise-xor gadget and customises the object it
+        # was handed (its own copy, as far as the caller knows) - later miters must not be affected
+        try:
+            with monitor.suspended():
+                from cirbo.synthesis import generation as gn
+                from cirbo.core.circuit import gate as G
+                k = len(L.outputs)
+                px = gn.generate_pairwise_xor(k)
+                outs = list(px.outputs)
+                for i, o in enumerate(outs):
+                    px.emplace_gate('vt_eq_%d' % i, G.NOT, (o,))
+                px.set_outputs(['vt_eq_%d' % i for i in range(len(outs))])
+                px.order_inputs(list(reversed(px.inputs)))
+            ctx.count('interference_before_miter')
+        except Exception as e:
+            ctx.count('interference_failed:' + type(e).__name__)
     try:
         build_miter(lc, rc, **kw)
     except Exception:
@@ -224,11 +244,16 @@ def gen_case(rng, spec):
     if rng.random() < 0.3:
         names = [rng.choice(['L', 'first', 'c_1']), rng.choice(['R', 'second', 'c_2'])]
     return {'kind': 'random', 'variant': variant, 'left': netgen.describe(net), 'right': netgen.describe(other),
-            'rseed': rng.getrandbits(32), 'names': names}
+            'rseed': rng.getrandbits(32), 'names': names, 'interfere': rng.random() < 0.25}
 
 
 def run_shard(spec, ctx):
     install(ctx)
+    if spec.get('kind') == 'suite':
+        from vt import suite
+        import sys
+        suite.run(sys.modules[__name__], ctx, select=spec.get('select'))
+        return
     for i in range(spec['count']):
         if ctx.out_of_time():
             ctx.count('stopped_on_budget')
